@@ -46,6 +46,10 @@ struct Engine {
     rw: Vec<(&'static str, RwState)>,
     once: Vec<(&'static str, Option<usize>)>,
     rng: Rng,
+    /// a stream of its own for everything that is not the choice of the next thread
+    /// (countdowns, budgets, coins): a pinned schedule replaces the choices only, so these
+    /// draws must not share a stream with them
+    krng: Rng,
     switch_ppm: u32,
     explicit: Vec<(u32, u32)>,
     explicit_mode: bool,
@@ -59,6 +63,15 @@ struct Engine {
     alloc_yields: u64,
     block_mean: u64,
     atomic_mean: u64,
+    /// conflict-directed holds: mean number of *interesting* atomic operations (see
+    /// `atomic_point`) between two self-parkings of a running thread (0 = off)
+    hold_mean: u64,
+    /// threads parked *before* an atomic operation on the address in `HELD[t]`; they are not
+    /// runnable until another thread touches that address, the budget runs out, or nobody
+    /// else can run
+    held: Vec<bool>,
+    holds_started: u64,
+    hold_conflicts: u64,
     /// a caller thread that just finished and waits to be joined by the coordinator
     exiting: Option<usize>,
     /// kernel thread ids of the simulated threads (0 = unknown yet)
@@ -88,6 +101,88 @@ thread_local! {
     /// atomic-operation preemption: atomic operations of library code left until the next
     /// scheduling point
     static ATOMIC_COUNTDOWN: Cell<u64> = const { Cell::new(u64::MAX) };
+    /// conflict-directed holds: interesting atomic operations left until this thread parks
+    /// itself before one
+    static HOLD_COUNTDOWN: Cell<u64> = const { Cell::new(u64::MAX) };
+    /// atomic operations of this thread since its last scheduling point (spin-loop guard)
+    static SINCE_SCHED: Cell<u64> = const { Cell::new(0) };
+}
+
+const MAXT: usize = 16;
+/// address of the atomic a held simulated thread is parked before (0 = not held)
+static HELD: [AtomicUsize; MAXT] = [const { AtomicUsize::new(0) }; MAXT];
+static HOLDS_ACTIVE: AtomicUsize = AtomicUsize::new(0);
+/// interesting atomic operations the running threads may still perform before all holds end
+static HOLD_BUDGET: std::sync::atomic::AtomicU64 = std::sync::atomic::AtomicU64::new(0);
+/// Exact table (open addressing) over the addresses of atomics touched by library code in
+/// this process: was there an instrumented write, and which simulated thread touched it last.
+/// Exact keys, so that what it answers does not depend on the numeric value of an address
+/// (address-space layout differs between the processes that run and re-run an execution);
+/// static addresses are keyed relative to the image.
+const TAB: usize = 8192;
+static TAB_KEY: [AtomicUsize; TAB] = [const { AtomicUsize::new(0) }; TAB];
+/// bit 7: written before; low bits: last simulated thread
+static TAB_META: [std::sync::atomic::AtomicU8; TAB] = [const { std::sync::atomic::AtomicU8::new(0) }; TAB];
+
+/// Returns (written before, last thread) and records this access.
+#[inline]
+fn touch(key: usize, me: usize, write: bool) -> (bool, usize) {
+    let mut i = addr_hash(key) & (TAB - 1);
+    for _ in 0..128 {
+        let k = TAB_KEY[i].load(Ordering::Relaxed);
+        if k == key || (k == 0 && TAB_KEY[i].compare_exchange(0, key, Ordering::Relaxed, Ordering::Relaxed).is_ok()) {
+            let old = TAB_META[i].load(Ordering::Relaxed);
+            let new = (old & 0x80) | if write { 0x80 } else { 0 } | (me as u8 & 0x7f);
+            TAB_META[i].store(new, Ordering::Relaxed);
+            return (old & 0x80 != 0, (old & 0x7f) as usize);
+        }
+        i = (i + 1) & (TAB - 1);
+    }
+    // table full around here: treat as never seen
+    (false, 0)
+}
+
+/// address range of the executable's writable image (.data/.bss): statics live there
+static STATIC_LO: AtomicUsize = AtomicUsize::new(0);
+static STATIC_HI: AtomicUsize = AtomicUsize::new(0);
+
+fn init_static_range() {
+    if STATIC_HI.load(Ordering::Relaxed) != 0 {
+        return;
+    }
+    let exe = std::fs::read_link("/proc/self/exe").ok().map(|p| p.to_string_lossy().into_owned());
+    let maps = std::fs::read_to_string("/proc/self/maps").unwrap_or_default();
+    let (mut lo, mut hi) = (usize::MAX, 0usize);
+    let mut prev_end = 0usize;
+    for line in maps.lines() {
+        let mut it = line.split_whitespace();
+        let range = it.next().unwrap_or("");
+        let perms = it.next().unwrap_or("");
+        let path = it.nth(3).unwrap_or("");
+        let Some((a, b)) = range.split_once('-') else { continue };
+        let (Ok(a), Ok(b)) = (usize::from_str_radix(a, 16), usize::from_str_radix(b, 16)) else { continue };
+        let ours = Some(path) == exe.as_deref();
+        // the anonymous mapping that directly follows the image is its .bss
+        let bss = path.is_empty() && a == prev_end && hi == prev_end && hi != 0;
+        if perms.starts_with("rw") && (ours || bss) {
+            lo = lo.min(a);
+            hi = hi.max(b);
+        }
+        if ours || bss {
+            prev_end = b;
+        }
+    }
+    if hi == 0 {
+        lo = 0;
+        hi = 1; // unknown: nothing counts as static
+    }
+    STATIC_LO.store(lo, Ordering::Relaxed);
+    STATIC_HI.store(hi, Ordering::Relaxed);
+}
+
+#[inline]
+fn addr_hash(a: usize) -> usize {
+    ((a as u64).wrapping_mul(0x9E37_79B9_7F4A_7C15) >> 40) as usize
 }
 
 /// atomic operations executed by library code of calls on simulated threads (reach probe)
@@ -114,25 +209,31 @@ pub fn gate_open_for_call() -> GateGuard {
     let open = {
         let mut g = lock();
         match g.as_mut() {
-            Some(e) if e.active && tid() != 0 && (e.alloc_mean > 0 || e.block_mean > 0 || e.atomic_mean > 0) => {
+            Some(e) if e.active && tid() != 0 && (e.alloc_mean > 0 || e.block_mean > 0 || e.atomic_mean > 0 || e.hold_mean > 0) => {
                 let next_a = if e.alloc_mean > 0 {
-                    1 + e.rng.below(2 * e.alloc_mean as usize) as u64
+                    1 + e.krng.below(2 * e.alloc_mean as usize) as u64
                 } else {
                     u64::MAX
                 };
                 let next_b = if e.block_mean > 0 {
-                    1 + e.rng.below(2 * e.block_mean as usize) as u64
+                    1 + e.krng.below(2 * e.block_mean as usize) as u64
                 } else {
                     u64::MAX
                 };
                 let next_c = if e.atomic_mean > 0 {
-                    1 + e.rng.below(2 * e.atomic_mean as usize) as u64
+                    1 + e.krng.below(2 * e.atomic_mean as usize) as u64
                 } else {
                     u64::MAX
                 };
                 COUNTDOWN.with(|c| c.set(next_a));
                 BLOCK_COUNTDOWN.with(|c| c.set(next_b));
+                let next_h = if e.hold_mean > 0 {
+                    1 + e.krng.below(2 * e.hold_mean as usize) as u64
+                } else {
+                    u64::MAX
+                };
                 ATOMIC_COUNTDOWN.with(|c| c.set(next_c));
+                HOLD_COUNTDOWN.with(|c| c.set(next_h));
                 true
             }
             _ => false,
@@ -226,7 +327,7 @@ pub fn block_point() {
 /// thread can be parked while it holds a lock that has no hook (so that another caller's
 /// `try_lock` fails, or its `lock` blocks for real and is routed around).
 #[inline]
-pub fn atomic_point() {
+pub fn atomic_point(addr: usize, write: bool) {
     let gate = GATE.try_with(|g| g.get()).unwrap_or(0);
     if gate == 0 {
         return;
@@ -242,6 +343,66 @@ pub fn atomic_point() {
     }
     if gate < 2 {
         return;
+    }
+    let me = tid();
+    // --- is this operation one through which two callers can communicate?
+    let lo = STATIC_LO.load(Ordering::Relaxed);
+    let is_static = addr >= lo && addr < STATIC_HI.load(Ordering::Relaxed);
+    let (written_before, last) = if addr == 0 {
+        (false, 0)
+    } else {
+        touch(if is_static { addr - lo + 1 } else { addr }, me, write)
+    };
+    let shared = is_static || (last != 0 && last != me);
+    let interesting = addr != 0 && shared && (write || written_before);
+    // --- a spinning thread must let the others run eventually
+    let spun = SINCE_SCHED.try_with(|c| {
+        let v = c.get() + 1;
+        c.set(v);
+        v
+    }).unwrap_or(0);
+    if spun >= 20_000 {
+        let _closed = gate_close();
+        SINCE_SCHED.with(|c| c.set(0));
+        forced_switch(me);
+    }
+    // --- conflict with a held thread, or the holds' budget
+    if addr != 0 && HOLDS_ACTIVE.load(Ordering::Relaxed) > 0 {
+        let mut conflict = 0usize;
+        for (t, h) in HELD.iter().enumerate().skip(1) {
+            if t != me && h.load(Ordering::Relaxed) == addr {
+                conflict = t;
+                break;
+            }
+        }
+        if conflict != 0 {
+            let _closed = gate_close();
+            hold_conflict(me, conflict, addr);
+        } else if interesting && HOLD_BUDGET.fetch_sub(1, Ordering::Relaxed) <= 1 {
+            let _closed = gate_close();
+            release_holds_and_yield(me);
+        }
+    }
+    // --- park this thread right before the operation and let the others run up to it
+    if interesting {
+        let fire = HOLD_COUNTDOWN
+            .try_with(|c| {
+                let v = c.get();
+                if v == u64::MAX {
+                    return false;
+                }
+                if v > 1 {
+                    c.set(v - 1);
+                    false
+                } else {
+                    true
+                }
+            })
+            .unwrap_or(false);
+        if fire {
+            let _closed = gate_close();
+            hold_self(me, addr);
+        }
     }
     let fire = ATOMIC_COUNTDOWN
         .try_with(|c| {
@@ -263,6 +424,121 @@ pub fn atomic_point() {
     }
 }
 
+/// The running thread parks itself before an atomic operation on `addr`; the others run
+/// until one of them is about to touch the same address (a conflict: a coin decides who goes
+/// first), until they have done a budget of interesting operations, or until none can run.
+fn hold_self(me: usize, addr: usize) {
+    if me == 0 || me >= MAXT {
+        return;
+    }
+    let mut g = enter(me);
+    let Some(e) = g.as_mut() else { return };
+    if !e.active {
+        return;
+    }
+    let m = e.hold_mean.max(1);
+    let next = 1 + e.krng.below(2 * m as usize) as u64;
+    HOLD_COUNTDOWN.with(|c| c.set(next));
+    // somebody else must be able to run
+    let others = e
+        .states
+        .iter()
+        .enumerate()
+        .any(|(t, s)| t != me && *s == TState::Runnable && !e.held[t]);
+    if !others {
+        return;
+    }
+    let bm = *e.krng.pick(&[3usize, 24, 200]);
+    let budget = 1 + e.krng.below(2 * bm) as u64;
+    e.held[me] = true;
+    e.holds_started += 1;
+    HELD[me].store(addr, Ordering::SeqCst);
+    HOLDS_ACTIVE.fetch_add(1, Ordering::SeqCst);
+    HOLD_BUDGET.store(budget, Ordering::SeqCst);
+    {
+        let mut st = state();
+        st.counters.atomic_holds += 1;
+        st.ev(&format!("t{me} hold"));
+    }
+    match e.decide(None) {
+        Some(next) if next != me => {
+            SINCE_SCHED.with(|c| c.set(0));
+            hand_over(me, g, next)
+        }
+        _ => {
+            e.release_hold(me);
+        }
+    }
+}
+
+/// The running thread `me` is about to touch the address thread `t` is parked before.
+fn hold_conflict(me: usize, t: usize, addr: usize) {
+    let mut g = enter(me);
+    let Some(e) = g.as_mut() else { return };
+    if !e.active || !e.held.get(t).copied().unwrap_or(false) {
+        return;
+    }
+    e.hold_conflicts += 1;
+    {
+        let mut st = state();
+        st.counters.atomic_conflicts += 1;
+        st.ev(&format!("t{me} conflict t{t}"));
+    }
+    if e.krng.below(2) == 0 {
+        // the parked thread goes first; this one waits before its operation in turn
+        e.release_hold(t);
+        if me < MAXT {
+            e.held[me] = true;
+            HELD[me].store(addr, Ordering::SeqCst);
+            HOLDS_ACTIVE.fetch_add(1, Ordering::SeqCst);
+            let bm = *e.krng.pick(&[2usize, 6, 24]);
+            let budget = 1 + e.krng.below(2 * bm) as u64;
+            HOLD_BUDGET.store(budget, Ordering::SeqCst);
+        }
+        e.forced(t);
+        SINCE_SCHED.with(|c| c.set(0));
+        hand_over(me, g, t);
+    }
+    // else: this thread goes first, the other stays parked
+}
+
+fn release_holds_and_yield(me: usize) {
+    {
+        let mut g = enter(me);
+        let Some(e) = g.as_mut() else { return };
+        if !e.active {
+            return;
+        }
+        e.release_all_holds();
+    }
+    sched_point();
+}
+
+/// A thread that has performed very many atomic operations without a scheduling point is
+/// probably spinning on something another thread has to do: hand the baton on.
+fn forced_switch(me: usize) {
+    let mut g = enter(me);
+    let Some(e) = g.as_mut() else { return };
+    if !e.active {
+        return;
+    }
+    let others: Vec<usize> = e.runnable().into_iter().filter(|t| *t != me).collect();
+    if others.is_empty() {
+        e.release_all_holds();
+        return;
+    }
+    let next = if e.explicit_mode {
+        match e.wanted() {
+            Some(w) if others.contains(&w) => w,
+            _ => others[0],
+        }
+    } else {
+        others[e.rng.below(others.len())]
+    };
+    e.record_forced(next);
+    hand_over(me, g, next);
+}
+
 fn atomic_sched_point() {
     let me = tid();
     if me == 0 {
@@ -275,7 +551,7 @@ fn atomic_sched_point() {
             return;
         }
         let m = e.atomic_mean.max(1);
-        let next = 1 + e.rng.below(2 * m as usize) as u64;
+        let next = 1 + e.krng.below(2 * m as usize) as u64;
         ATOMIC_COUNTDOWN.with(|c| c.set(next));
     }
     {
@@ -298,7 +574,7 @@ fn block_sched_point() {
             return;
         }
         let m = e.block_mean.max(1);
-        let next = 1 + e.rng.below(2 * m as usize) as u64;
+        let next = 1 + e.krng.below(2 * m as usize) as u64;
         BLOCK_COUNTDOWN.with(|c| c.set(next));
     }
     {
@@ -321,7 +597,7 @@ fn alloc_sched_point() {
             return;
         }
         let m = e.alloc_mean.max(1);
-        let next = 1 + e.rng.below(2 * m as usize) as u64;
+        let next = 1 + e.krng.below(2 * m as usize) as u64;
         COUNTDOWN.with(|c| c.set(next));
         e.alloc_yields += 1;
     }
@@ -360,7 +636,8 @@ pub struct Stats {
     pub ext_blocks: u64,
 }
 
-pub fn start(sched: &Sched, nthreads: usize, alloc_mean: u64, block_mean: u64, atomic_mean: u64) {
+pub fn start(sched: &Sched, nthreads: usize, alloc_mean: u64, block_mean: u64, atomic_mean: u64, hold_mean: u64) {
+    init_static_range();
     let explicit = sched.explicit.clone().unwrap_or_default();
     let explicit_mode = !explicit.is_empty() || sched.switch_ppm == 0;
     *lock() = Some(Engine {
@@ -370,6 +647,7 @@ pub fn start(sched: &Sched, nthreads: usize, alloc_mean: u64, block_mean: u64, a
         rw: Vec::new(),
         once: Vec::new(),
         rng: Rng::new(sched.seed),
+        krng: Rng::new(sched.seed ^ 0x6b6e_6f62_7321),
         switch_ppm: sched.switch_ppm,
         explicit,
         explicit_mode,
@@ -383,6 +661,10 @@ pub fn start(sched: &Sched, nthreads: usize, alloc_mean: u64, block_mean: u64, a
         alloc_yields: 0,
         block_mean,
         atomic_mean,
+        hold_mean,
+        held: vec![false; nthreads + 1],
+        holds_started: 0,
+        hold_conflicts: 0,
         exiting: None,
         os_tids: vec![0; nthreads + 1],
         ext_blocks: 0,
@@ -430,14 +712,53 @@ impl Engine {
         self.states
             .iter()
             .enumerate()
-            .filter(|(_, s)| **s == TState::Runnable)
+            .filter(|(i, s)| **s == TState::Runnable && !self.held[*i])
             .map(|(i, _)| i)
             .collect()
     }
 
+    fn release_hold(&mut self, t: usize) {
+        if self.held.get(t).copied().unwrap_or(false) {
+            self.held[t] = false;
+            if t < MAXT {
+                HELD[t].store(0, Ordering::SeqCst);
+            }
+            HOLDS_ACTIVE.fetch_sub(1, Ordering::SeqCst);
+        }
+    }
+
+    fn release_all_holds(&mut self) {
+        for t in 0..self.held.len() {
+            self.release_hold(t);
+        }
+    }
+
+    /// A scheduling decision that is not a choice (conflict hand-over, spin guard): counted
+    /// and recorded like one, so that a pinned schedule stays aligned.
+    fn forced(&mut self, choice: usize) {
+        if self.explicit_mode {
+            let _ = self.wanted();
+        }
+        self.record_forced(choice);
+    }
+
+    fn record_forced(&mut self, choice: usize) {
+        self.steps += 1;
+        self.switches += 1;
+        match self.rle.last_mut() {
+            Some((t, n)) if *t as usize == choice => *n += 1,
+            _ => self.rle.push((choice as u32, 1)),
+        }
+    }
+
     /// One scheduling decision. `cur` = the thread asking, if it can continue itself.
     fn decide(&mut self, cur: Option<usize>) -> Option<usize> {
-        let run = self.runnable();
+        let mut run = self.runnable();
+        if run.is_empty() && self.held.iter().any(|h| *h) {
+            // only parked threads are left: their holds end
+            self.release_all_holds();
+            run = self.runnable();
+        }
         if run.is_empty() {
             return None;
         }
@@ -564,6 +885,7 @@ pub fn sched_point() {
     if me == 0 {
         return;
     }
+    let _ = SINCE_SCHED.try_with(|c| c.set(0));
     let mut g = enter(me);
     let Some(e) = g.as_mut() else { return };
     if !e.active {
